@@ -197,6 +197,8 @@ const RESULT_BYTES: usize = 4 << 20;
 #[repr(C)]
 struct SlotHeader {
     seq: u64,
+    /// Heartbeat: bumped for every executed check (also during minimisation).
+    hb: u64,
     text_len: u64,
     text: [u8; INFLIGHT_TEXT],
     result_len: u64,
@@ -234,10 +236,14 @@ impl Slot {
         unsafe {
             let h = self.hdr();
             std::ptr::write_volatile(&mut (*h).seq, 0);
+            std::ptr::write_volatile(&mut (*h).hb, 0);
             std::ptr::write_volatile(&mut (*h).text_len, 0);
             std::ptr::write_volatile(&mut (*h).result_len, 0);
             std::ptr::write_volatile(&mut (*h).result_ready, 0);
         }
+    }
+    fn heartbeat(&self) -> u64 {
+        unsafe { std::ptr::read_volatile(&(*self.hdr()).hb) }
     }
     fn inflight(&self) -> (u64, String) {
         unsafe {
@@ -292,6 +298,10 @@ pub trait Case: Clone {
     fn hash(&self) -> u64;
     /// Simpler variants, most aggressive first: shorter lengths, then simpler values.
     fn shrink(&self) -> Vec<Self>;
+    /// Number of library calls checked by one evaluation of this case.
+    fn calls(&self) -> u64 {
+        1
+    }
 }
 
 /// A failed check.
@@ -399,6 +409,44 @@ impl Ctx {
         self.arm_watchdog(self.watchdog_default);
     }
 
+    /// Tells the parent this child is alive (it kills children without progress).
+    #[inline]
+    pub fn beat(&self) {
+        unsafe {
+            let h = self.slot_hdr;
+            let v = std::ptr::read_volatile(&(*h).hb);
+            std::ptr::write_volatile(&mut (*h).hb, v.wrapping_add(1));
+        }
+    }
+
+    /// Publishes the partial report collected so far, so that it survives a later crash of
+    /// this child.  After a flush the local partial starts from zero again.
+    fn flush_interim(&mut self) {
+        unsafe {
+            let h = self.slot_hdr;
+            // merge with what is already published
+            let mut total = Partial::default();
+            if std::ptr::read_volatile(&(*h).result_ready) != 0 {
+                let n = std::ptr::read_volatile(&(*h).result_len) as usize;
+                let area = (h as *mut u8).add(std::mem::size_of::<SlotHeader>());
+                if let Some(p) = Partial::deserialize(std::slice::from_raw_parts(area, n)) {
+                    total = p;
+                }
+            }
+            total.merge_all(std::mem::take(&mut self.p));
+            let bytes = total.serialize();
+            if bytes.len() <= RESULT_BYTES {
+                let area = (h as *mut u8).add(std::mem::size_of::<SlotHeader>());
+                std::ptr::write_volatile(&mut (*h).result_ready, 0);
+                std::ptr::copy_nonoverlapping(bytes.as_ptr(), area, bytes.len());
+                std::ptr::write_volatile(&mut (*h).result_len, bytes.len() as u64);
+                std::ptr::write_volatile(&mut (*h).result_ready, 2);
+            } else {
+                self.p = total;
+            }
+        }
+    }
+
     fn note_inflight<C: Case>(&mut self, case: &C) {
         unsafe {
             let h = self.slot_hdr;
@@ -406,11 +454,14 @@ impl Ctx {
             case.inflight(&mut w);
             std::ptr::write_volatile(&mut (*h).text_len, w.len as u64);
             std::ptr::write_volatile(&mut (*h).seq, self.seq);
+            let v = std::ptr::read_volatile(&(*h).hb);
+            std::ptr::write_volatile(&mut (*h).hb, v.wrapping_add(1));
         }
     }
 
     /// Runs `check` in a forked grandchild under a watchdog.
     pub fn probe(&self, secs: u32, check: &mut dyn FnMut() -> bool) -> Probe {
+        self.beat();
         unsafe {
             let pid = libc::fork();
             if pid < 0 {
@@ -465,7 +516,8 @@ impl Ctx {
         }
         self.note_inflight(case);
         let v = check(case);
-        self.p.evaluations += 1;
+        self.p.evaluations += case.calls();
+        self.p.bump_cases();
         if nontrivial && self.seen.insert(case.hash()) {
             self.p.distinct += 1;
         }
@@ -474,7 +526,14 @@ impl Ctx {
             let r = case.routine();
             self.p.bump(&format!("violating:{}", r.split("::").next().unwrap_or(&r)), 1);
             if self.p.violations.len() < MAX_PER_JOB {
-                let (min, fail, steps) = shrink_case(case, fail, 3000, &mut |c| check(c));
+                let hdr = self.slot_hdr;
+                let (min, fail, steps) = shrink_case(case, fail, 3000, &mut |c| {
+                    unsafe {
+                        let v = std::ptr::read_volatile(&(*hdr).hb);
+                        std::ptr::write_volatile(&mut (*hdr).hb, v.wrapping_add(1));
+                    }
+                    check(c)
+                });
                 let mut note = fail.note.clone();
                 if steps > 0 {
                     let _ = write!(note, " [minimised in {steps} steps from: {}]", case.call());
@@ -488,6 +547,7 @@ impl Ctx {
                     actual: fail.actual,
                     note,
                 });
+                self.flush_interim();
             }
         }
     }
@@ -504,13 +564,14 @@ impl Ctx {
         sig: i32,
         check: &mut dyn FnMut(&C) -> Verdict,
     ) {
-        self.p.evaluations += 1;
+        self.p.evaluations += case.calls();
+        self.p.bump_cases();
         self.p.bump("violations_found", 1);
         if self.in_probe {
             return;
         }
-        let secs = 5;
-        let mut budget = 80usize;
+        let secs = 3;
+        let mut budget = 60usize;
         let mut cur = case.clone();
         let mut steps = 0;
         // does it reproduce at all?
@@ -556,6 +617,7 @@ impl Ctx {
                 note,
             });
         }
+        self.flush_interim();
     }
 }
 
@@ -631,7 +693,14 @@ struct Running {
     attempts: u32,
     /// Fault seen by a previous attempt, waiting for the minimising re-run.
     pending: Option<(u64, i32, String)>,
+    last_hb: u64,
+    last_progress: Instant,
+    /// Killed by the parent because the heartbeat stopped.
+    stalled: bool,
 }
+
+/// Seconds without a heartbeat after which the parent kills a child (watchdog).
+pub const STALL_SECS: u64 = 8;
 
 fn silent_panics() {
     std::panic::set_hook(Box::new(|_| {}));
@@ -666,15 +735,12 @@ unsafe fn child_main(job: &Job, slot: &Slot, replay: Replay, cfg: &RunCfg, deadl
         };
         ctx.p.internal_errors.push(format!("job {} panicked in harness code: {}", job.name, msg));
     }
-    let bytes = ctx.p.serialize();
-    let n = bytes.len().min(RESULT_BYTES);
-    if bytes.len() > RESULT_BYTES {
-        // cannot happen with the caps on samples/violations, but never write out of bounds
+    ctx.flush_interim();
+    let h = slot.hdr();
+    if std::ptr::read_volatile(&(*h).result_ready) != 2 {
+        // cannot happen with the caps on samples/violations
         libc::_exit(4);
     }
-    std::ptr::copy_nonoverlapping(bytes.as_ptr(), slot.result_area(), n);
-    let h = slot.hdr();
-    std::ptr::write_volatile(&mut (*h).result_len, n as u64);
     std::ptr::write_volatile(&mut (*h).result_ready, 1);
     libc::_exit(0);
 }
@@ -704,7 +770,32 @@ pub fn run_jobs(jobs: Vec<Job>, cfg: &RunCfg) -> Partial {
             if pid == 0 {
                 child_main(&jobs[job], &slots[slot], replay, cfg, deadline);
             }
-            Running { pid, job, slot, attempts, pending }
+            Running {
+                pid,
+                job,
+                slot,
+                attempts,
+                pending,
+                last_hb: 0,
+                last_progress: Instant::now(),
+                stalled: false,
+            }
+        }
+    };
+    // Reads whatever partial report the child has published (final or interim).
+    let published = |slot: &Slot| -> Option<Partial> {
+        unsafe {
+            if std::ptr::read_volatile(&(*slot.hdr()).result_ready) == 0 {
+                return None;
+            }
+            let n = std::ptr::read_volatile(&(*slot.hdr()).result_len) as usize;
+            Partial::deserialize(std::slice::from_raw_parts(slot.result_area(), n.min(RESULT_BYTES)))
+        }
+    };
+    let push_fault = |total: &mut Partial, v: Violation| {
+        total.bump("violations_found", 1);
+        if total.violations.len() < MAX_VIOLATIONS {
+            total.violations.push(v);
         }
     };
 
@@ -718,7 +809,7 @@ pub fn run_jobs(jobs: Vec<Job>, cfg: &RunCfg) -> Partial {
             break;
         }
         let mut status = 0;
-        let pid = unsafe { libc::waitpid(-1, &mut status, 0) };
+        let pid = unsafe { libc::waitpid(-1, &mut status, libc::WNOHANG) };
         if pid < 0 {
             if unsafe { *libc::__errno_location() } == libc::EINTR {
                 continue;
@@ -726,26 +817,38 @@ pub fn run_jobs(jobs: Vec<Job>, cfg: &RunCfg) -> Partial {
             total.internal_errors.push("waitpid failed".into());
             break;
         }
+        if pid == 0 {
+            // nobody finished: watchdog pass, then a short sleep
+            let now = Instant::now();
+            for r in running.iter_mut() {
+                let hb = slots[r.slot].heartbeat();
+                if hb != r.last_hb {
+                    r.last_hb = hb;
+                    r.last_progress = now;
+                } else if !r.stalled && now.duration_since(r.last_progress).as_secs() >= STALL_SECS {
+                    r.stalled = true;
+                    unsafe {
+                        libc::kill(r.pid, libc::SIGKILL);
+                    }
+                }
+            }
+            std::thread::sleep(Duration::from_micros(500));
+            continue;
+        }
         let Some(idx) = running.iter().position(|r| r.pid == pid) else { continue };
         let r = running.swap_remove(idx);
         let slot = &slots[r.slot];
         let job_name = &jobs[r.job].name;
+        let part = published(slot);
+        let reported_fault =
+            part.as_ref().map(|p| p.violations.iter().any(|v| v.kind == "fault")).unwrap_or(false);
         if libc::WIFEXITED(status) && libc::WEXITSTATUS(status) == 0 {
-            let ready = unsafe { std::ptr::read_volatile(&(*slot.hdr()).result_ready) } == 1;
-            let n = unsafe { std::ptr::read_volatile(&(*slot.hdr()).result_len) } as usize;
-            let part = if ready {
-                let bytes = unsafe { std::slice::from_raw_parts(slot.result_area(), n) };
-                Partial::deserialize(bytes)
-            } else {
-                None
-            };
             match part {
                 Some(p) => {
                     // If this was a minimising re-run, the child reported the fault itself.
                     if let Some((seq, sig, desc)) = &r.pending {
-                        let reported = p.violations.iter().any(|v| v.kind == "fault");
-                        if !reported && total.violations.len() < MAX_VIOLATIONS {
-                            total.violations.push(raw_fault(job_name, *seq, *sig, desc));
+                        if !reported_fault {
+                            push_fault(&mut total, raw_fault(job_name, *seq, *sig, desc));
                         }
                     }
                     total.merge(p);
@@ -756,14 +859,19 @@ pub fn run_jobs(jobs: Vec<Job>, cfg: &RunCfg) -> Partial {
             }
             free.push(r.slot);
         } else if libc::WIFSIGNALED(status) {
-            let sig = libc::WTERMSIG(status);
+            let sig = if r.stalled { libc::SIGALRM } else { libc::WTERMSIG(status) };
             let (seq, desc) = slot.inflight();
             total.bump("child_faults", 1);
             if let Some((pseq, psig, pdesc)) = &r.pending {
-                // The minimising re-run died too; report the earlier fault unminimised.
-                if total.violations.len() < MAX_VIOLATIONS {
-                    total.violations.push(raw_fault(job_name, *pseq, *psig, pdesc));
+                // The minimising re-run died as well: if it got as far as reporting the earlier
+                // fault (interim report) fine, otherwise report it unminimised.
+                if !reported_fault {
+                    push_fault(&mut total, raw_fault(job_name, *pseq, *psig, pdesc));
                 }
+            }
+            // keep what the child had published before it died
+            if let Some(p) = part {
+                total.merge(p);
             }
             if seq == 0 {
                 total.internal_errors.push(format!(
@@ -772,9 +880,8 @@ pub fn run_jobs(jobs: Vec<Job>, cfg: &RunCfg) -> Partial {
                 ));
                 free.push(r.slot);
             } else if r.attempts >= 6 || total.violations.len() >= MAX_VIOLATIONS {
-                if total.violations.len() < MAX_VIOLATIONS {
-                    total.violations.push(raw_fault(job_name, seq, sig, &desc));
-                }
+                push_fault(&mut total, raw_fault(job_name, seq, sig, &desc));
+                total.bump("jobs_abandoned_after_repeated_faults", 1);
                 free.push(r.slot);
             } else {
                 // Re-run the job: skip what was already executed, minimise the faulting case.
